@@ -4,6 +4,7 @@ C02 - output events reproduce the source block's output history exactly.
 Trace property over the global history: assignments (begin/end), filter calls and deliveries.
 """
 
+import asyncio
 import copy
 
 from .. import core, harness, vloop
@@ -84,7 +85,7 @@ def gen(ctx):
     rng = ctx.rng('gen')
     n = 350 if ctx.tier == 'quick' else 70000
     for _ in range(n):
-        sender = rng.choice(['src', 'src', 'input', 'counter', 'func', 'not', 'inputexp'])
+        sender = rng.choice(['src', 'src', 'input', 'counter', 'func', 'not', 'inputexp', 'poll'])
         alphabet = range(len(NUMERIC)) if sender == 'counter' else range(len(VALUES))
         length = rng.choice([1, 2, 3, 5, 8, 13, 20, 40])
         vals = []
@@ -106,7 +107,7 @@ def gen(ctx):
                      'dup': rng.random() < 0.08}
                     for _ in range(k)]
         case = {'sender': sender, 'values': vals, 'on_output': evlist(),
-                'on_every': evlist() if sender in ('src', 'input', 'counter', 'inputexp') else [],
+                'on_every': evlist() if sender in ('src', 'input', 'counter', 'inputexp', 'poll') else [],
                 'form': [rng.choice(FORMS), rng.choice(FORMS)],
                 'initdef': rng.random() < 0.5}
         if sender == 'src' and rng.random() < 0.4:
@@ -208,6 +209,16 @@ def build_and_run(case, ctx):
             s = edzed.InputExp('snd', duration=10 ** 7, initdef=first, expired='EXPIRED',
                                on_output=oo, on_every_output=oe)
             feeder = s
+        elif kind == 'poll':
+            # a sender with asynchronous first-value initialisation (AddonAsyncInit): every
+            # polled value is assigned, equal to the previous one or not
+            script = [copy.copy(pool[i]) for i in case['values']]
+
+            def poll():
+                ctx.count('polled_values')
+                return script.pop(0) if script else edzed.UNDEF
+            s = edzed.ValuePoll('snd', func=poll, interval=1.0, on_output=oo, on_every_output=oe)
+            feeder = s
         else:
             feeder = Src('feed', x_init=first, initdef=edzed.UNDEF)
             if kind == 'func':
@@ -255,6 +266,10 @@ def build_and_run(case, ctx):
         s, feeder = objs
         await harness.settle(3)
         start = 0 if (case['sender'] == 'src' and not case['initdef']) else 1
+        if case['sender'] == 'poll':
+            await asyncio.sleep(len(case['values']) + 0.5)      # one value per second
+            await harness.settle(3)
+            return sim.alive()
         for idx in case['values'][start:]:
             v = pool[idx]
             if isinstance(feeder, (edzed.Counter, edzed.Input, edzed.InputExp)):
